@@ -172,3 +172,37 @@ Theorem C08_mapor_per_actor_nonvacuous :
   movalspec_ok H K x = true.
 Proof. exact mapor_pa_example. Qed.
 Print Assumptions C08_mapor_per_actor_nonvacuous.
+
+(** Map<K, Orswot> whose keys are never removed: per-actor delivery suffices for the COMPLETE state, also across merges - a nested
+    remove that overtakes the adds it observed is parked inside the nested set, travels inside merged states, and the result is
+    the state causal delivery produces (both are [mapor_spec_nk] of the knowledge); closed example below (proofs/MapOrswotNK.v) *)
+From Crdt Require Import model.Orswot model.Map spec.System spec.OrswotSpec spec.OrswotSystem spec.MapSpec spec.MapSystem spec.MapOrswotSpec proofs.MapOrswotNK proofs.MapOrswotNKCor.
+Theorem C08_mapor_nk_per_actor (H : list (oprec (mop oop))) :
+  mohist_ok_nk H -> forall (s : cmap orswot) (K : gset nat), moreach_nk H s K -> s = mapor_spec_nk H K.
+Proof. exact (mapor_refine_nk H). Qed.
+Print Assumptions C08_mapor_nk_per_actor.
+
+Theorem C08_mapor_nk_any_discipline (adm : adm_t (mop oop)) (mg : Prop) (H : list (oprec (mop oop))) (s : cmap orswot) (K : gset nat) :
+  mohist_ok_nk H -> (forall K i, adm H K i -> adm_per_actor H K i) ->
+  reach mnew (mapply orswot_valops) (mmerge orswot_valops) adm mg H s K -> s = mapor_spec_nk H K.
+Proof. exact (mapor_refine_nk_any adm mg H s K). Qed.
+Print Assumptions C08_mapor_nk_any_discipline.
+
+Theorem C08_mapor_nk_parked_remove_example :
+  exists (H : list (oprec (mop oop))) (sA sB sC : cmap orswot) (KA KB : gset nat),
+    mohist_ok_nk H /\ length H = 4%nat /\
+    ~ adm_causal H ∅ 1%nat /\
+    moreach_nk H sA KA /\
+    odeferred <$> (eval <$> mentries sA !! 7) = Some {[ ({[1 := 1]} : gmap N N) := ({[10]} : gset N) ]} /\
+    moreach_nk H sB KB /\
+    mo_state_entries sB 7 = {[10 := {[1 := 1]}]} /\
+    moreach_nk H sC (KA ∪ KB) /\
+    mmerge orswot_valops sA sB = sC /\ mmerge orswot_valops sB sA = sC /\
+    mmerge orswot_valops sA sB = mapor_spec_nk H (KA ∪ KB) /\
+    mapor_nk_ok H (KA ∪ KB) (mmerge orswot_valops sA sB) = true /\
+    mapor_nk_ok H KA sA = true /\
+    mo_state_entries sC 7 = ∅ /\
+    odeferred <$> (eval <$> mentries sC !! 7) = Some ∅ /\
+    mo_state_entries sC 8 = {[20 := {[2 := 2]}; 21 := {[1 := 2]}]}.
+Proof. exact mapor_nk_example_closed. Qed.
+Print Assumptions C08_mapor_nk_parked_remove_example.
